@@ -24,6 +24,23 @@ PROPS = {
                         "client-side kernel timestamp faults are outside the property's quantifier and are not injected here",
                         "SCION half of the property: see C13/C15 worlds (not covered by this check)"],
     },
+    "C09": {
+        "level": "exploration",
+        "stall_is_violation": True,
+        "stall_s": 8,
+        "budget": {"quick": 80, "thorough": 600},
+        "runs": {"quick": 400, "thorough": 40000},
+        "rule": "one run = 96 crafted datagrams fired at 8 real runIPServer listeners (one SO_REUSEPORT group, real NTS key provider); the first 187 runs of a batch enumerate "
+                "the complete space {256 first header bytes} x {lengths 0,1,47,48,49,50,51,52,75,76,100,1024,2047,2048} x {trailer zeros, random, 0xff, valid NTS request built with the project's encoder, "
+                "the same with one bit flipped}; later runs sample first bytes, lengths 0..2048, source ports and network duplicates; every 8th reply is fed back with a forged source; "
+                "non-trivial = at least one datagram answered and one ignored; distinct = distinct event-log hash",
+        "exhaustive_part": "first byte x length class x trailer class (17920 cases) enumerated completely when the batch has at least 187 runs (quick tier: 400 runs)",
+        "required_probes": ["answered", "ignored", "nts-answered", "reflection-checked"],
+        "components": {"real": ["core/server runIPServer, handleRequest", "net/ntp DecodePacket, ValidateRequest", "net/nts DecodePacket, ProcessRequest", "net/ntske cookies, Provider"],
+                       "stub": dict(STUBS_COMMON, **{"kernel UDP stack": "simnet", "senders": "scripted datagram injector"})},
+        "assumptions": ["IP listener only in this check (the SCION listener shares ValidateRequest and handleRequest; its addressing clause is C13's)",
+                        "a datagram is given 5 ms of virtual time to be answered; replies are attributed through the simulator's causality tracking (which datagram the answering socket had read last)"],
+    },
     "C12": {
         "level": "exploration",
         "budget": {"quick": 40, "thorough": 600},
@@ -101,7 +118,7 @@ NOT_APPLICABLE = {
 
 # Properties that the design claims but whose world is not built yet (kept current).
 NOT_YET = {p: "designed (DESIGN.md section 3) but the simulated world is not built yet; not claimed until its check runs"
-           for p in ["C05", "C06", "C07", "C08", "C09", "C10", "C11", "C13", "C14", "C15", "C20"]}
+           for p in ["C05", "C06", "C07", "C08", "C10", "C11", "C13", "C14", "C15", "C20"]}
 
 PROPS["C01"].update(
     level_text="seeded exploration of multi-round histories of the real synchronization loop with scripted sources (values over the whole int64 range, failures, late answers, sources that never answer) and admissible/inadmissible configurations; per-round invariants: exactly one correction, magnitude bounds from the statement, exact value when every source answered in time, correction no later than the round's timeout; start-up refusal of inadmissible settings. Evidence, not proof.",
@@ -119,6 +136,10 @@ PROPS["C03"].update(
     level_text="seeded exploration of exchange histories between the real IP client and the real IP listeners on a simulated network with loss, duplication, delay, reordering, clock offset/skew/steps and timestamp faults; for every accepted exchange the four combined timestamps are attributed to one exchange by the simulator's ground truth and the reported offset is compared with the true clock offset against half the true round-trip delay. Evidence, not proof.",
     level_note="IP transport only in this check; trusts the simulated kernel (timestamps, error queue) and clocks; 16 ns rounding allowance",
     technique="deterministic simulation with fault injection: seeded network/clock faults, ground-truth oracle per accepted exchange")
+PROPS["C09"].update(
+    level_text="complete enumeration of the first-byte x length-class x trailer-class space against the running listeners plus seeded sampling of the rest (remaining header bytes, lengths, ports, duplicates); reply count, addressing, reply header and anti-reflection are decided by the simulated network's accounting. Enumeration is exhaustive for the stated sub-space only; everything else is evidence, not proof.",
+    level_note="trusts the simulator's causality tracking of replies; listener hangs are detected by the wall-clock watchdog and reported as violations (stall) only if they reproduce",
+    technique="deterministic simulation: enumerated + seeded crafted-datagram injection at real listeners, wire accounting oracle")
 PROPS["C12"].update(
     level_text="seeded exploration of call histories and statement-level interleavings of the real Provider under a virtual clock over weeks of virtual time; per-call invariants from the statement plus a porcupine linearizability check against a permissive model. Evidence, not proof.",
     level_note="trusts testing/synctest's fake clock, the simulator-aware mutex substituted for sync.Mutex, and that interleavings finer than statements do not matter; constants (24h, 3d, 2d) are taken from the property statement",
